@@ -601,11 +601,17 @@ func uncountedFrontCut(name ssa.Value, sl map[ssa.Value]bool) ssa.Value {
 		case *ssa.Call:
 			n := an.CalleeName(x)
 			switch n {
-			case "strings.TrimRight", "strings.TrimRightFunc", "strings.TrimSuffix", "bytes.TrimRight", "bytes.TrimRightFunc", "bytes.TrimSuffix":
+			case "strings.TrimRight", "strings.TrimRightFunc", "strings.TrimSuffix", "bytes.TrimRight", "bytes.TrimRightFunc", "bytes.TrimSuffix", "strings.CutSuffix", "bytes.CutSuffix":
 				return visit(x.Call.Args[0], depth+1)
+			case "strings.CutPrefix", "bytes.CutPrefix":
+				// a constant prefix is a constant number of bytes, like the constant low bound of text[1:]
+				if _, isc := an.ConstString(x.Call.Args[1]); isc {
+					return visit(x.Call.Args[0], depth+1)
+				}
+				return x
 			case "strings.TrimSpace", "strings.Trim", "strings.TrimFunc", "strings.TrimLeft", "strings.TrimLeftFunc", "strings.TrimPrefix",
 				"bytes.TrimSpace", "bytes.Trim", "bytes.TrimFunc", "bytes.TrimLeft", "bytes.TrimLeftFunc", "bytes.TrimPrefix",
-				"strings.Fields", "strings.Split", "strings.SplitN", "strings.Cut", "strings.CutPrefix":
+				"strings.Fields", "strings.Split", "strings.SplitN", "strings.Cut":
 				return x
 			}
 		case *ssa.Extract:
